@@ -95,8 +95,12 @@ def main():
             for pos in range(length):
                 for rest in itertools.product(gen.KINDS, repeat=length - 1):
                     seqs.append(tuple(rest[:pos]) + ("K",) + tuple(rest[pos:]))
+        # ... and (both tiers, universe A only) the smallest histories in which a next
+        # hop's reference count goes up twice and down to zero: two routes through one
+        # next hop, both withdrawn, one resolution, any order
+        five = sorted(set(itertools.permutations("NNDDR")))
         for universe in ("A", "B"):
-            for kinds in seqs:
+            for kinds in seqs + (five if universe == "A" else []):
                 length = len(kinds)
                 name = "seq%s_%s" % (universe, "".join(kinds))
                 np_, nh, ni = gen.universe_sizes(universe)
@@ -178,7 +182,7 @@ def main():
             "exhaustive": not inconclusive and not mismatches,
             "explanation": "states = harness functions (one per sequence of event kinds and universe) for which CrossHair's symbolic execution of the real route_control.py returned 'Confirmed over all paths' (all index values, all paths); transitions = events executed per function x functions; counterexamples are re-run under plain CPython before being reported",
             "functions_encoded": ["conf/route_control.py: RouteController.add_new_route_entry, _add_neighbor, _create_update_module, _create_module_links, add_unresolved_new_neighbor, delete_route_entry, _probe_addr, _get_gate_idx, fetch_mac, validate_ipv4, get_*_module_name, mac_to_int, mac_to_hex"],
-            "bounds": ["%s, universes %s" % ("3 events per sequence, all 27 kind sequences, plus the 12 orders of {new route, new route, delete route, neighbour resolution} and the 12 orders of {new route, kernel resolves (notification pending), new route, notification}" if tier == "quick" else "4 events per sequence: all 81 sequences of new/delete/notification plus the 108 with one silent kernel resolution", universes),
+            "bounds": ["%s, universes %s" % ("3 events per sequence, all 27 kind sequences, plus the 12 orders of {new route, new route, delete route, neighbour resolution} and the 12 orders of {new route, kernel resolves (notification pending), new route, notification}, and (universe A) the 30 orders of {new route, new route, delete route, delete route, notification}" if tier == "quick" else "4 events per sequence: all 81 sequences of new/delete/notification plus the 108 with one silent kernel resolution, and (universe A) the 30 orders of {new route, new route, delete route, delete route, notification}", universes),
                        "events the kernel cannot produce (duplicate RTM_NEWROUTE, RTM_DELROUTE of an absent route, repeated RTM_NEWNEIGH) are skipped"],
             "queries": len(results), "solver": "CrossHair 0.0.x over z3 (python3-vt)", "solver_s": round(sum(r[2] for r in results), 1),
             "functions_confirmed": confirmed, "functions_total": len(results),
